@@ -424,9 +424,26 @@ Lemma let_item_slice_env ie l off len cap idx value s :
   env_eq true nonsentinel (r_env s) (let_item_slice rec ie l off len cap idx value s).
 Proof.
   unfold let_item_slice. apply tri_bind_env; [intros z|fin].
-  repeat match goal with |- env_eq _ _ _ (if ?c then _ else _) => destruct c end; try fin.
-  destruct (append_value _ _ _ _ _ _) as [[st' sl]|]; [|exact I].
-  step_rec. destruct sl; try exact I. fin.
+  destruct (z =? Z.of_nat len)%Z.
+  - assert (Hk : forall s0, r_env s0 = r_env s ->
+             env_eq true nonsentinel (r_env s)
+               match append_value (r_st s0) l off len cap value with
+               | Some (st', sl) =>
+                   match rec (CLet ie) (set_rv (set_st s0 st') (Imm sl)) with
+                   | Ok s1 => match sl with
+                              | VSlice l' off' _ _ => Ok (set_rv s1 (Place l' (off' + len)))
+                              | _ => Abort (APanic "unreachable")
+                              end
+                   | Err e s1 => Err e s1
+                   | Abort a => Abort a
+                   end
+               | None => unsupported "append beyond modelled size classes"
+               end).
+    { intros s0 H0. destruct (append_value _ _ _ _ _ _) as [[st' sl]|]; [|exact I].
+      step_rec. destruct sl; try exact I. fin. }
+    destruct (is_place_expr ie); [apply Hk; reflexivity|].
+    step_rec. apply Hk. congruence.
+  - repeat match goal with |- env_eq _ _ _ (if ?c then _ else _) => destruct c end; fin.
 Qed.
 
 Lemma let_item_string_env ie x idx value s : env_eq true nonsentinel (r_env s) (let_item_string rec ie x idx value s).
